@@ -284,6 +284,10 @@ fn e_frontend(op: u32, variant: usize) {
                 wit = r.is_ok();
                 if !allowed {
                     assert!(r.is_err() && g::G.tx_len == 0, "C07: protocol-feature exchange needs the offered PROTOCOL_FEATURES bit");
+                    // a refused call must not change what later gates are decided on
+                    let n = f.node.try_lock().unwrap();
+                    assert!(n.acked_protocol_features == st.ap && n.acked_virtio_features == st.av, "C07: a locally refused negotiation call leaves the acknowledged feature sets unchanged");
+                    drop(n);
                 } else {
                     tx_is_header(op, st.need_reply, 8);
                     assert!(g::tx64(12) == if op == fe::SET_FEATURES { val } else { pval }, "C01: u64 body");
@@ -614,7 +618,8 @@ fn e_frontend_get_config(class: usize) {
     let rsize: u32 = match class { 1 => 0, 3 => 3, _ => LEN as u32 };
     let roff: u32 = if class == 2 { off + 4 } else { off };
     let rdata: [u8; 4] = kani::any();
-    let natural = if peer_fails { 12 } else { 12 + LEN };
+    // classes 4 / 5: the body claims the full window but the message carries only 2 / 0 payload bytes
+    let natural = match class { 1 | 5 => 12, 4 => 12 + 2, _ => 12 + LEN };
     // SAFETY: ghost state
     unsafe {
         g::put_hdr(0, op, 0x5, natural as u32);
@@ -943,5 +948,9 @@ e_fe_cfg!(e_fe_get_config_reply, 0);
 e_fe_cfg!(e_fe_get_config_failure, 1);
 // @harness props=C01,C03,C06,C07 tier=thorough reach=off timeout=500 bound="Frontend::get_config(offset 0x10, 4 bytes, WRITABLE): reply describing another offset; request/reply payload bytes and negotiation words symbolic" stubs="vmm-sys-util raw_recvmsg/raw_sendmsg (ghost stream socket), libc::close + OwnedFd::drop (ghost descriptor table), handle_alloc_error (assume false)"
 e_fe_cfg!(e_fe_get_config_other_window, 2);
+// @harness props=C01,C03,C06,C07 tier=quick reach=off timeout=500 bound="Frontend::get_config(offset 0x10, 4 bytes, WRITABLE): reply whose body claims 4 bytes but whose header size / wire carry only 2 payload bytes; request/reply payload bytes and negotiation words symbolic" stubs="vmm-sys-util raw_recvmsg/raw_sendmsg (ghost stream socket), libc::close + OwnedFd::drop (ghost descriptor table), handle_alloc_error (assume false)"
+e_fe_cfg!(e_fe_get_config_short_payload, 4);
+// @harness props=C01,C03,C06,C07 tier=thorough reach=off timeout=500 bound="Frontend::get_config(offset 0x10, 4 bytes, WRITABLE): reply whose body claims 4 bytes but which carries no payload at all; request/reply payload bytes and negotiation words symbolic" stubs="vmm-sys-util raw_recvmsg/raw_sendmsg (ghost stream socket), libc::close + OwnedFd::drop (ghost descriptor table), handle_alloc_error (assume false)"
+e_fe_cfg!(e_fe_get_config_no_payload, 5);
 // @harness props=C01,C03,C06,C07 tier=thorough reach=off timeout=500 bound="Frontend::get_config(offset 0x10, 4 bytes, WRITABLE): reply whose config size field is 3; request/reply payload bytes and negotiation words symbolic" stubs="vmm-sys-util raw_recvmsg/raw_sendmsg (ghost stream socket), libc::close + OwnedFd::drop (ghost descriptor table), handle_alloc_error (assume false)"
 e_fe_cfg!(e_fe_get_config_short_size, 3);
